@@ -270,9 +270,10 @@ def imax (a b : Int) : Int := if a ≤ b then b else a
 
 /-- The include probe: `main` (25 bytes) includes `a` (72 bytes) includes `b` (22) includes
     `c` (4).  Files are numbered a = 1, b = 2, c = 3; `cache` lists the files the loader holds
-    from earlier probes in the same directory (a cached file is taken as is: neither its size
-    nor the depth is checked and its own includes are not followed).  Result: depth-limit
-    diagnostic, too-large diagnostic, cache afterwards. -/
+    from earlier probes in the same directory.  With the repaired loader a cached file only
+    saves reading and parsing (so its SIZE is not checked again), but the depth is checked and
+    its own includes are followed; a file is cached as soon as it has been parsed, before the
+    depth test.  Result: depth-limit diagnostic, too-large diagnostic, cache afterwards. -/
 def includeSize : Nat → Int
   | 1 => 72 | 2 => 22 | _ => 4
 
@@ -280,12 +281,13 @@ def includeFrom (L D : Int) : Nat → Nat → List Nat → Bool × Bool × List 
   | 0, _, cache => (false, false, cache)
   | fuel + 1, k, cache =>
     if k > 3 then (false, false, cache)
-    else if cache.contains k then (false, false, cache)
-    else if includeSize k > L then (false, true, cache)
-    else if D ≤ (k : Int) then (true, false, cache)
     else
-      let (d, t, cache') := includeFrom L D fuel (k + 1) cache
-      (d, t, k :: cache')
+      let cached := cache.contains k
+      if !cached && includeSize k > L then (false, true, cache)
+      else
+        let cache1 := if cached then cache else k :: cache
+        if D ≤ (k : Int) then (true, false, cache1)
+        else includeFrom L D fuel (k + 1) cache1
 
 def includeProbe (cache : List Nat) (L D : Int) : Bool × Bool × List Nat :=
   if L < includeMainBytes then (false, true, cache) else includeFrom L D 4 1 cache
